@@ -6,6 +6,7 @@
  * which does not involve vorbisfile at all.
  * output: <idx> ok:<samples> | <idx> bad:<what>  */
 #include "common.h"
+#include <math.h>
 
 #define MAXL 16
 typedef struct { char path[400]; unsigned char *data; long len; int ch; long n; float **pcm; int ok; char vendor[128]; } solo;
@@ -125,6 +126,36 @@ int main(int argc,char **argv){
         }
       }
       ov_clear(&vf);
+      /* the same read-through with the integer API (16 bit signed little endian): frames of every link in order, values = rounded/clipped solo PCM */
+      if(!strncmp(res,"ok:",3)){
+        memio m2; OggVorbis_File v2; mio_init(&m2,buf,blen); m2.cap=cap;
+        if(ov_open_callbacks(&m2,&v2,NULL,0,mode=='n'?mio_cb_stream:mio_cb_seekable)<0)snprintf(res,sizeof(res),"bad:reopen");
+        else{
+          static short ib[8192]; int cur=0,lastbs=-1,started=0; long idx_in=0,total=0;
+          while(cur<nl&&gn[cur]==0)cur++;
+          while(1){
+            int bs=-1; long nb=ov_read(&v2,(char*)ib,sizeof(ib),0,2,1,&bs); long fr,f; int c,chn;
+            if(nb==0)break;
+            if(nb<0){ snprintf(res,sizeof(res),"bad:iread%ld:at_link%d:%ld",nb,cur,idx_in); break; }
+            if(started&&bs!=lastbs){ if(idx_in!=gn[cur]){ snprintf(res,sizeof(res),"bad:ishort_link%d:%ld!=%ld",cur,idx_in,gn[cur]); break; } cur++; idx_in=0; while(cur<nl&&gn[cur]==0)cur++; }
+            started=1; lastbs=bs;
+            if(cur>=nl){ snprintf(res,sizeof(res),"bad:iextra_audio"); break; }
+            chn=gch[cur];
+            if(nb%(2*chn)){ snprintf(res,sizeof(res),"bad:ipartial_frame:link%d:%ld",cur,nb); break; }
+            fr=nb/(2*chn);
+            if(idx_in+fr>gn[cur]){ snprintf(res,sizeof(res),"bad:ioverrun:link%d:%ld+%ld>%ld",cur,idx_in,fr,gn[cur]); break; }
+            for(f=0;f<fr&&!strncmp(res,"ok:",3);f++)for(c=0;c<chn;c++){
+              double x=(double)L[cur]->pcm[c][idx_in+f]*32768.0; long lo=(long)ceil(x-0.5),hi=(long)floor(x+0.5); int got=ib[f*chn+c];
+              if(lo<-32768)lo=-32768; if(hi<-32768)hi=-32768; if(lo>32767)lo=32767; if(hi>32767)hi=32767;
+              if(got<lo||got>hi){ snprintf(res,sizeof(res),"bad:ipcm:link%d:idx%ld:ch%d:%d!=[%ld,%ld]",cur,idx_in+f,c,got,lo,hi); break; }
+            }
+            if(strncmp(res,"ok:",3))break;
+            idx_in+=fr; total+=fr;
+          }
+          if(!strncmp(res,"ok:",3)){ long want=0; for(k=0;k<nl;k++)want+=gn[k]; if(total!=want)snprintf(res,sizeof(res),"bad:icount:%ld!=%ld",total,want); }
+          ov_clear(&v2);
+        }
+      }
     }
     memset(&it,0,sizeof(it)); setitimer(ITIMER_VIRTUAL,&it,NULL);
     printf("%ld %s E=%ld B=%ld\n",idx,res,m.npoints,m.max_backhop); fflush(stdout);
